@@ -360,6 +360,41 @@ def specs(draw, rich=True, with_mutation=None, with_subscription=False, max_obje
     return spec
 
 
+def sibling(spec):
+    """The same names, other internals: every enum's internal values are rotated among its members and every default keeps its
+    *internal* value (so it now names the neighbouring member).  Two such schemas in one process must not influence each other."""
+    sib = Spec(json.loads(json.dumps(spec)))
+    rename = {}
+    for t in sib["types"].values():
+        if t["kind"] == "enum" and len(t["values"]) > 1:
+            old = {v["name"]: v["value"] for v in t["values"]}
+            vs = [v["value"] for v in t["values"]]
+            for v, x in zip(t["values"], vs[1:] + vs[:1]):
+                v["value"] = x
+            for v in t["values"]:
+                rename[[n for n, x in old.items() if x == v["value"]][0]] = v["name"]
+
+    def ren(x):
+        if isinstance(x, dict):
+            if set(x) == {"__enum__"}:
+                return {"__enum__": rename.get(x["__enum__"], x["__enum__"])}
+            return {k: ren(v) for k, v in x.items()}
+        if isinstance(x, list):
+            return [ren(v) for v in x]
+        return x
+
+    for t in sib["types"].values():
+        for f in t.get("fields") or []:
+            for a in [f] + (f.get("args") or []):
+                if "default" in a:
+                    a["default"] = ren(a["default"])
+    for d in sib.get("directives", []):
+        for a in d.get("args") or []:
+            if "default" in a:
+                a["default"] = ren(a["default"])
+    return sib
+
+
 # ------------------------------------------------------------------ SDL rendering
 def lit(v, spec=None):
     """python/JSON value (enums as {'__enum__': name}) -> GraphQL literal text"""
@@ -593,7 +628,13 @@ def coerce_ref(spec, t, v, route="spec"):
         if n == "Float":
             if isinstance(v, bool) or not isinstance(v, (int, float)):
                 raise Reject("non-float")
-            return float(v)
+            try:
+                x = float(v)
+            except OverflowError:
+                raise Reject("not representable as a finite float")
+            if x != x or x in (float("inf"), float("-inf")):
+                raise Reject("non-finite float")
+            return x
         if n in ("String", "ID"):
             if not isinstance(v, str):
                 if n == "ID" and isinstance(v, int) and not isinstance(v, bool):
